@@ -282,7 +282,7 @@ func c08Publish(c *Ctx, m *Module) {
 	for _, cs := range m.callersOf(ew) {
 		name := describeArg(cs, 0)
 		discoverable := !strings.Contains(name, `"local."`) && strings.Contains(name, `".json"`) && strings.Contains(name, "LocalDir(")
-		key := "exclusiveWrite@" + short(cs.Parent().Name()) + ":"
+		key := "exclusiveWrite@" + short(refName(cs.Parent())) + ":"
 		if discoverable {
 			key += "uploadFileName"
 		} else {
